@@ -1167,8 +1167,12 @@ class Interp:
         """lexicographic strict less-than over key tuples; returns (lt, eq)."""
         lt, eq = False, True
         for x, y, k in zip(xs, ys, kinds):
-            l = self.alg.cmp("lt", x, y, k)
-            q = self.alg.cmp("eq", x, y, k)
+            if k == "f" and hasattr(self.alg, "cmp_total_lt"):
+                l = self.alg.cmp_total_lt(x, y)
+                q = self.alg.and_(self.alg.not_(l), self.alg.not_(self.alg.cmp_total_lt(y, x)))
+            else:
+                l = self.alg.cmp("lt", x, y, k)
+                q = self.alg.cmp("eq", x, y, k)
             lt = self.alg.or_(lt, self.alg.and_(eq, l))
             eq = self.alg.and_(eq, q)
         return lt, eq
@@ -1181,7 +1185,8 @@ class Interp:
         outs = [obj_array(v.shape) for v in vs]
         for oidx in np.ndindex(*vs[0].shape[1:]):
             cols = [[v[(j,) + oidx] for j in range(n)] for v in vs]
-            if all(not isz(cols[t][j]) for t in range(nk) for j in range(n)):
+            if all(not isz(cols[t][j]) and not (isinstance(cols[t][j], (float, np.floating)) and math.isnan(cols[t][j]))
+                   for t in range(nk) for j in range(n)):
                 order = sorted(range(n), key=lambda j: tuple(cols[t][j] for t in range(nk)))
                 for t in range(len(ops)):
                     for r, j in enumerate(order):
@@ -1477,6 +1482,14 @@ def to_float(x):
         return x
     if isinstance(x, (int, Fraction, float)):
         return x
+    if isinstance(x, z3.FPNumRef):
+        if x.isNaN():
+            return float("nan")
+        if x.isInf():
+            return float("-inf") if x.isNegative() else float("inf")
+        r = z3.simplify(z3.fpToReal(x))
+        v = float(Fraction(r.numerator_as_long(), r.denominator_as_long()))
+        return -0.0 if (v == 0 and x.isNegative()) else v
     if z3.is_int_value(x):
         return x.as_long()
     if z3.is_rational_value(x):
@@ -1549,3 +1562,177 @@ def tree_equal(alg, ta, tb):
     if not conj:
         return True
     return z3.And(*conj) if len(conj) > 1 else conj[0]
+
+
+# ---------------------------------------------------------------------------------------------------
+class FPAlg(RealAlg):
+    """'fp32' numeric model: float cells are z3 Float32 terms (RNE) or numpy.float32 when concrete. NaN / +-inf are first class.
+    Integers and booleans as in RealAlg."""
+
+    name = "fp32"
+    F32 = z3.Float32()
+    RM = z3.RNE()
+
+    def _isfp(self, x):
+        return isinstance(x, z3.FPRef)
+
+    def const(self, v, kind):
+        if kind == "f":
+            return np.float32(v)
+        return super().const(v, kind)
+
+    def sym(self, name, kind):
+        if kind == "f":
+            return z3.FP(name, self.F32)
+        return super().sym(name, kind)
+
+    def z(self, x, kind=None):
+        if isz(x):
+            return x
+        if kind == "f" or isinstance(x, (np.floating, float, Fraction)):
+            v = float(x)
+            if math.isnan(v):
+                return z3.fpNaN(self.F32)
+            if math.isinf(v):
+                return z3.fpPlusInfinity(self.F32) if v > 0 else z3.fpMinusInfinity(self.F32)
+            return z3.FPVal(v, self.F32)
+        return super().z(x, kind)
+
+    def zf(self, x):
+        return self.z(x, "f")
+
+    def _f2(self, a, b, zop, npop):
+        if not isz(a) and not isz(b):
+            with np.errstate(all="ignore"):
+                return np.float32(npop(np.float32(a), np.float32(b)))
+        return zop(self.RM, self.z(a, "f"), self.z(b, "f"))
+
+    def add(self, a, b, k):
+        if k != "f":
+            return super().add(a, b, k)
+        return self._f2(a, b, z3.fpAdd, np.add)
+
+    def sub(self, a, b, k):
+        if k != "f":
+            return super().sub(a, b, k)
+        return self._f2(a, b, z3.fpSub, np.subtract)
+
+    def mul(self, a, b, k):
+        if k != "f":
+            return super().mul(a, b, k)
+        return self._f2(a, b, z3.fpMul, np.multiply)
+
+    def div(self, a, b, k):
+        if k != "f":
+            return super().div(a, b, k)
+        return self._f2(a, b, z3.fpDiv, np.divide)
+
+    def neg(self, a, k):
+        if k != "f" or not isz(a):
+            return -a
+        return z3.fpNeg(a)
+
+    def cmp(self, op, a, b, k):
+        if k != "f":
+            return super().cmp(op, a, b, k)
+        if not isz(a) and not isz(b):
+            a, b = np.float32(a), np.float32(b)
+            return bool({"lt": a < b, "le": a <= b, "gt": a > b, "ge": a >= b, "eq": a == b, "ne": a != b}[op])
+        az, bz = self.z(a, "f"), self.z(b, "f")
+        return {"lt": z3.fpLT(az, bz), "le": z3.fpLEQ(az, bz), "gt": z3.fpGT(az, bz), "ge": z3.fpGEQ(az, bz),
+                "eq": z3.fpEQ(az, bz), "ne": z3.Not(z3.fpEQ(az, bz))}[op]
+
+    def cmp_total_lt(self, a, b):
+        """XLA sort comparator: total order (-0 < +0, NaN last)."""
+        az, bz = self.z(a, "f"), self.z(b, "f")
+        both_zero = z3.And(z3.fpIsZero(az), z3.fpIsZero(bz))
+        return z3.If(z3.fpIsNaN(az), False, z3.If(z3.fpIsNaN(bz), True,
+                     z3.If(both_zero, z3.And(z3.fpIsNegative(az), z3.fpIsPositive(bz)), z3.fpLT(az, bz))))
+
+    def max(self, a, b, k):
+        if k != "f":
+            return super().max(a, b, k)
+        if not isz(a) and not isz(b):
+            return np.float32(np.maximum(np.float32(a), np.float32(b)))
+        az, bz = self.z(a, "f"), self.z(b, "f")
+        return z3.If(z3.fpIsNaN(az), az, z3.If(z3.fpIsNaN(bz), bz, z3.If(z3.fpGT(az, bz), az, bz)))
+
+    def min(self, a, b, k):
+        if k != "f":
+            return super().min(a, b, k)
+        if not isz(a) and not isz(b):
+            return np.float32(np.minimum(np.float32(a), np.float32(b)))
+        az, bz = self.z(a, "f"), self.z(b, "f")
+        return z3.If(z3.fpIsNaN(az), az, z3.If(z3.fpIsNaN(bz), bz, z3.If(z3.fpLT(az, bz), az, bz)))
+
+    def abs(self, a, k):
+        if k != "f":
+            return super().abs(a, k)
+        return np.float32(abs(a)) if not isz(a) else z3.fpAbs(a)
+
+    def sign(self, a, k):
+        if k != "f":
+            return super().sign(a, k)
+        if not isz(a):
+            return np.float32(np.sign(np.float32(a)))
+        return z3.If(z3.fpIsNaN(a), a, z3.If(z3.fpIsZero(a), a, z3.If(z3.fpIsNegative(a), self.z(-1.0, "f"), self.z(1.0, "f"))))
+
+    def ipow(self, a, y, k):
+        if k != "f":
+            return super().ipow(a, y, k)
+        r = a
+        for _ in range(y - 1):
+            r = self.mul(r, a, "f")
+        return r
+
+    def unary_uf(self, name, a):
+        if name == "sqrt":
+            if not isz(a):
+                with np.errstate(all="ignore"):
+                    return np.float32(np.sqrt(np.float32(a)))
+            return z3.fpSqrt(self.RM, a)
+        return uf(name, 1, self.F32)(self.z(a, "f"))
+
+    def binary_uf(self, name, a, b):
+        return uf(name, 2, self.F32)(self.z(a, "f"), self.z(b, "f"))
+
+    def is_finite(self, a):
+        if not isz(a):
+            return bool(np.isfinite(a))
+        return z3.Not(z3.Or(z3.fpIsNaN(a), z3.fpIsInf(a)))
+
+    def kind_of_val(self, x):
+        if isinstance(x, (np.floating, float)):
+            return "f"
+        return super().kind_of_val(x)
+
+    def ite(self, c, a, b, k=None):
+        if not isz(c):
+            return a if c else b
+        if a is b:
+            return a
+        if k is None:
+            k = self.kind_of_val(a) if isz(a) else self.kind_of_val(b)
+        if k == "f":
+            az, bz = self.z(a, "f"), self.z(b, "f")
+            if az.eq(bz):
+                return az
+            return z3.If(c, az, bz)
+        return super().ite(c, a, b, k)
+
+    def convert(self, a, kfrom, kto):
+        if kfrom == kto:
+            return a
+        if kto == "f":
+            if kfrom == "b":
+                return self.ite(a, np.float32(1), np.float32(0), "f")
+            if not isz(a):
+                return np.float32(a)
+            return z3.fpToFP(self.RM, z3.ToReal(a), self.F32)
+        if kfrom == "f":
+            if kto == "b":
+                return self.cmp("ne", a, np.float32(0), "f")
+            if not isz(a):
+                return int(a)
+            raise Unsupported("fp32 -> int on symbolic value")
+        return super().convert(a, kfrom, kto)
